@@ -95,12 +95,12 @@ def mutagen_tree(data):
 # ------------------------------------------------------------------ model calls
 def enc_layout(l):
     """l: dict(moov_first, udta, udta_first, udta_extra, meta=[('h',)|('i',)|('f',n)|('o',n)], ilst, traks=[(co64, soun, [rel])],
-    moofs=[(flag, rel, tail)], mdat, big, topfree, size0)"""
+    moofs=[(tf_flags, rel, tail)], mdat, big, topfree, size0, mdat2)"""
     meta = ",".join(m[0] + (zs(m[1]) if len(m) > 1 else "") for m in l["meta"]) or "-"
     traks = ",".join(("c" if c else "s") + ("a" if s else "v") + ":" + "/".join(zs(e) for e in es) for c, s, es in l["traks"]) or "-"
-    moofs = ",".join("%d:%s:%s" % (1 if fl else 0, zs(rel), zs(tail)) for fl, rel, tail in l["moofs"]) or "-"
+    moofs = ",".join("%s:%s:%s" % (zs(int(fl)), zs(rel), zs(tail)) for fl, rel, tail in l["moofs"]) or "-"
     return [str(int(l["moov_first"])), zs(l["udta"]), str(int(l["udta_first"])), zs(l["udta_extra"]), meta, hx(l["ilst"]),
-            traks, moofs, hx(l["mdat"]), zs(l["big"]), zs(l["topfree"]), str(int(l["size0"]))]
+            traks, moofs, hx(l["mdat"]), zs(l["big"]), zs(l["topfree"]), str(int(l["size0"])), hx(l.get("mdat2", b""))]
 
 
 def model_build(ctx, l):
@@ -200,9 +200,60 @@ def check_after(ctx, what, after, data):
                          dict(data, model=str(mo)[:200], walker=str(po)[:200]))
 
 
+def insertion_region(before):
+    """(offset, 0): where __save_new puts the new atoms: data start of moov.udta, else of moov (independent reading)"""
+    atoms = W.mp4_atoms(before)
+    p = first_path(atoms, (b"moov", b"udta")) or first_path(atoms, (b"moov",))
+    if p is None:
+        return None
+    a = p[-1]
+    return a["off"] + a["hdr"], 0
+
+
+WHAT_MEDIA = "C02 MP4: a chunk offset / tfhd base offset no longer addresses the same media bytes"
+WHAT_SHAPE = "C02 MP4: offset tables changed shape"
+
+
+def media_oracle(ctx, kind, st, data):
+    """direct oracle on the implementation (independent walker only): every stco/co64 entry and tfhd base offset is resolved
+    before and after the operation; those behind the replaced region must have moved with the data (and address the same
+    bytes up to the end of their top-level atom), those not past its start must be unchanged"""
+    wb, wa = st.wbefore, st.wafter
+    if wb is None or wa is None or st.exc is not None or st.after == st.before:
+        return
+    try:
+        reg = region_of(st.before) or insertion_region(st.before)
+        atoms0 = W.mp4_atoms(st.before)
+    except W.Bad:
+        return
+    if reg is None:
+        return
+    ctx.oracle_cases += 1
+    o0s, o1s = wb["extra"]["offsets"], wa["extra"]["offsets"]
+    if [(k, i) for k, _, i, _ in o0s] != [(k, i) for k, _, i, _ in o1s]:
+        ctx.violation("oracle", WHAT_SHAPE, dict(data, **{"class": "tables"}, before=len(o0s), after=len(o1s)))
+        return
+    off, old = reg
+    delta = len(st.after) - len(st.before)
+    for (k, at0, i, o0), (_, at1, _, o1) in zip(o0s, o1s):
+        bad = False
+        if o0 <= off:
+            bad = o1 != o0
+        elif o0 >= off + old:
+            ta = next((a for a in atoms0 if a["off"] <= o0 < a["off"] + a["size"]), None)
+            n = ta["off"] + ta["size"] - o0 if ta is not None and ta["name"] not in (b"moov", b"moof") else 0
+            bad = o1 != o0 + delta or st.before[o0:o0 + n] != st.after[o1:o1 + n]
+        if bad:
+            ctx.violation("oracle", WHAT_MEDIA, dict(data, **{"class": "media"}, entry=[k.decode(), at0, i, o0, o1], region=[off, old],
+                                                      delta=delta, expected=o0 if o0 <= off else o0 + delta))
+            return
+
+
 def check_step(ctx, kind, st):
     if st.op not in ("save", "fresh", "delete", "moddelete"):
         return
+    media_oracle(ctx, kind, st, {"runner": "fam.corr_mp4", "kind": kind.name, "op": st.brief(), "before_len": len(st.before),
+                                 "before_sha": __import__("hashlib").sha1(st.before).hexdigest()[:12]})
     if len(st.before) > LIMIT:
         ctx.count("mp4:skipped-large")
         return
@@ -227,7 +278,8 @@ def check_step(ctx, kind, st):
         ctx.corr_cases += 1
         ctx.count("mp4:corr-save")
         ok = compare(ctx, "save(%s)" % st.arg, status, val, st.after, st.exc, data)
-        if ok and st.op == "save" and st.arg != "none" and st.cb:
+        if st.op == "save" and st.arg != "none" and st.cb and seen is not None:
+            # (info.padding, info.size) as the callback saw them, whatever it returned
             if seen != tuple(st.cb[0][:2]):
                 ctx.disagree("fam.mp4", "padding callback arguments differ", dict(data, model=seen, impl=st.cb[0][:2]))
     else:
